@@ -40,6 +40,7 @@ FSMOUNT_CLOEXEC = 1
 SYS_openat2 = 437
 
 ENOENT, EEXIST, EXDEV, ENOTDIR, EINVAL, ENOSYS, ELOOP, EACCES, EAGAIN = 2, 17, 18, 20, 22, 38, 40, 13, 11
+ENAMETOOLONG = 36
 
 S_IFMT = 0o170000
 
